@@ -1197,6 +1197,12 @@ class BaseRepo:
             shallow.update(new_shallow)
         if new_unshallow:
             shallow.difference_update(new_unshallow)
+            # The shallow file was loaded as parentless graft points when the
+            # repository was opened; a commit that is no longer shallow has
+            # its real parents again.
+            for sha in new_unshallow:
+                if self._graftpoints.get(sha) == []:
+                    del self._graftpoints[sha]
         if shallow:
             self._put_named_file("shallow", b"".join([sha + b"\n" for sha in shallow]))
         else:
